@@ -15,6 +15,7 @@ fn main() {
         "c03" => checks::c03::main(&a),
         "c04" => checks::c04::main(&a),
         "c05" => checks::c05::main(&a),
+        "c06" => checks::c06::main(&a),
         "c07" => checks::c07::main(&a),
         "c08" => checks::c08::main(&a),
         "c10" => checks::c10::main(&a),
